@@ -39,6 +39,8 @@ type Frame struct {
 	entrySt  *State // for old()
 	protected bool
 	ghost    map[string]Val
+	loopEntry map[int]*State // state at loop entry (before havoc), for entry(...) in invariants
+	curLoop  int
 }
 
 func (f *Frame) Clone() *Frame {
@@ -60,6 +62,7 @@ func (f *Frame) Clone() *Frame {
 	for k, v := range f.loopIn {
 		n.loopIn[k] = v
 	}
+	n.ghost = cloneGhost(f.ghost)
 	return &n
 }
 
@@ -376,8 +379,15 @@ func (vc *VC) jump(fr *Frame, st *State, from, to *ssa.BasicBlock) []Outcome {
 		for i, phi := range phis {
 			fr.env[phi] = phiVals[i]
 		}
+		iterName := fmt.Sprintf("iter%d", li.Ordinal)
 		if isBack && fr.loopIn[to] {
-			// preservation
+			// preservation (the ghost iteration counter has advanced by one)
+			if it, ok := fr.ghost[iterName].(Term); ok {
+				nx := vc.iAdd(it, vc.idx(1))
+				fr.ghost[iterName] = nx
+				fr.ghost["iter"] = nx
+			}
+			fr.curLoop = li.Ordinal
 			vc.checkLoopInv(fr, st, li, lc, "inv-pres")
 			if lc.Decreases != nil && vc.dry == 0 {
 				m := vc.evalSpecTerm(fr, st, lc.Decreases, nil)
@@ -389,6 +399,20 @@ func (vc *VC) jump(fr *Frame, st *State, from, to *ssa.BasicBlock) []Outcome {
 			return nil
 		}
 		// entry: establish, havoc, assume
+		if fr.loopEntry == nil {
+			fr.loopEntry = map[int]*State{}
+		} else {
+			ne := make(map[int]*State, len(fr.loopEntry)+1)
+			for k, v := range fr.loopEntry {
+				ne[k] = v
+			}
+			fr.loopEntry = ne
+		}
+		fr.loopEntry[li.Ordinal] = st.Clone()
+		fr.curLoop = li.Ordinal
+		fr.ghost = cloneGhost(fr.ghost)
+		fr.ghost[iterName] = vc.idx(0)
+		fr.ghost["iter"] = vc.idx(0)
 		vc.checkLoopInv(fr, st, li, lc, "inv-init")
 		mod := vc.loopModified(fr, st, li, to, len(phis))
 		for _, phi := range phis {
@@ -401,7 +425,16 @@ func (vc *VC) jump(fr *Frame, st *State, from, to *ssa.BasicBlock) []Outcome {
 		for _, c := range mod {
 			vc.havocCell(st, c)
 		}
+		it := vc.freshTerm(iterName, vc.intSort(64))
+		it.Signed = true
+		st.Fact(vc.iLe(vc.idx(0), it, true))
+		st.Fact(vc.iLe(it, vc.idxBig(maxLenBound), true))
+		fr.ghost[iterName] = it
+		fr.ghost["iter"] = it
 		for _, inv := range lc.Invariants {
+			if inv.Case != "" && inv.Case != vc.curCase {
+				continue
+			}
 			t := vc.evalSpecTerm(fr, st, inv.Expr, nil)
 			st.Fact(t)
 		}
@@ -426,11 +459,22 @@ func (vc *VC) jump(fr *Frame, st *State, from, to *ssa.BasicBlock) []Outcome {
 	return vc.execFrom(fr, st, to, len(phis))
 }
 
+func cloneGhost(g map[string]Val) map[string]Val {
+	n := make(map[string]Val, len(g)+2)
+	for k, v := range g {
+		n[k] = v
+	}
+	return n
+}
+
 func (vc *VC) checkLoopInv(fr *Frame, st *State, li *LoopInfo, lc *LoopContract, kind string) {
 	if vc.dry > 0 {
 		return
 	}
 	for _, inv := range lc.Invariants {
+		if inv.Case != "" && inv.Case != vc.curCase {
+			continue
+		}
 		t := vc.evalSpecTerm(fr, st, inv.Expr, nil)
 		vc.addObligation(st, kind, fmt.Sprintf("loop%d.%s", li.Ordinal, inv.Label), vc.posOf(li.Header.Instrs[0].Pos()), t, inv.Props)
 	}
